@@ -162,6 +162,13 @@ def interaction_texts():
         out.append("<!DOCTYPE r [<!ENTITY e %s%s%s>]><r a='&e;'/>" % (q, v, q))
         if "%" not in v and "&#60;" not in v and "&#38;#60;" not in v:
             out.append("<!DOCTYPE r [<!ATTLIST r a CDATA %s%s%s b CDATA #FIXED %s[%s]%s>]><r/>" % (q, v, q, q, v, q))
+    # (3b) ... and `<` standing AS ITSELF in a literal of the DTD - an entity value holding markup, a system or public literal (kept by
+    #      hand: seed C04-K escaped it in every literal; its detection had depended on a generated entity value)
+    for lit in ('<!ENTITY e "<b>bold</b>">', "<!ENTITY e 'a<b'>", '<!ENTITY x SYSTEM "f<g">', '<!NOTATION n SYSTEM "<">',
+                '<!ENTITY y PUBLIC "p" "u<v" NDATA n><!NOTATION n SYSTEM "s">', "<!ENTITY e '<!-- c -->'>", "<!ENTITY e '<?p d?>'>"):
+        out.append("<!DOCTYPE r [%s]><r/>" % lit)
+    out.append('<!DOCTYPE r SYSTEM "a<b"><r/>')
+    out.append('<!DOCTYPE r [<!ENTITY e "<b>bold</b>">]><r>&e;</r>')
     # (4) white space in front of the first item of a document without an XML declaration, in particular in front of a processing
     #     instruction whose target begins with `xml` (round-9 seeds C01-M / C04-M: a reader that commits to the XML declaration once
     #     it has read `<?xml`)
